@@ -65,8 +65,11 @@ def runCyclic (j : Json) : Except String Json := do
   if impls.length != targets.length then throw "impl_graphs / targets length"
   -- the mode in force at the argument position: Match's default is evaluated in match mode, else
   -- the mode of the enclosing wrapper (a leaf such as Spec('id') is interpreted in that mode)
-  let pos := (j.getObjValAs? String "pos").toOption.getD ""
-  let wrap := (j.getObjValAs? String "wrap").toOption.getD ""
+  let pos ← j.getObjValAs? String "pos"
+  let wrap ← (match optField j "wrap" with
+    | none => pure ""
+    | some (.str w) => pure w
+    | some o => throw s!"bad wrap {o.compress}")
   let m : Mode := if pos == "match_dflt" then .mtch else if wrap == "fill" then .fill else .auto
   let expected : List Json := targets.map (fun t =>
     match rebuild (evalLeaf m t) nodes root with
@@ -79,8 +82,8 @@ def runCyclic (j : Json) : Except String Json := do
     return Json.mkObj [("skip", true), ("why", "a tuple inside a tuple with a smaller index: not a constructible heap")]
   let same := (expected.zip impls).all (fun p => p.1.compress == p.2.compress)
   let fresh : FreshObs :=
-    { noSpecObject := (j.getObjValAs? Bool "impl_fresh").toOption.getD true,
-      rerunSame := (j.getObjValAs? Bool "impl_rerun_same").toOption.getD true }
+    { noSpecObject := ← j.getObjValAs? Bool "impl_fresh",
+      rerunSame := ← j.getObjValAs? Bool "impl_rerun_same" }
   return Json.mkObj [("agree", same), ("holds", same && checkFresh fresh),
     ("why", if !same then "a self-referential container in argument position was not reproduced with the same (cyclic) shape from the values of its leaves"
             else if !fresh.noSpecObject then "a node of the rebuilt graph is the spec's own object"
@@ -103,6 +106,9 @@ def run (j : Json) : Except String Json := do
   let agree := resEq mres c.implRes && logAgree
   let probes ← implProbes c.implLog
   let modesOK := checkModes fuel c.spec probes
+  -- … and the probes that recorded are the ones the reference evaluation reaches, in that order
+  -- (`checkModes` alone is a membership test: recording nothing would pass it)
+  let probesReached := (probesOf mlog).map (·.1) == probes.map (·.1)
   -- "embedded T/Spec-like objects are replaced by their values": a result the codec cannot
   -- encode (it still contains a T, Spec or other glom object) where the model yields a plain value
   let leaked := match c.implRes, mres with
@@ -122,10 +128,11 @@ def run (j : Json) : Except String Json := do
   let mprobes := probesOf mlog
   -- identity of rebuilt containers (observed by the harness; absent fields = not observed)
   let fresh : FreshObs :=
-    { noSpecObject := (j.getObjValAs? Bool "impl_fresh").toOption.getD true,
-      rerunSame := (j.getObjValAs? Bool "impl_rerun_same").toOption.getD true }
-  return Json.mkObj [("agree", agree), ("holds", modesOK && shapeOK && lazyOK && checkFresh fresh),
+    { noSpecObject := ← j.getObjValAs? Bool "impl_fresh",
+      rerunSame := ← j.getObjValAs? Bool "impl_rerun_same" }
+  return Json.mkObj [("agree", agree), ("holds", modesOK && probesReached && shapeOK && lazyOK && checkFresh fresh),
     ("why", if !modesOK then "a probe recorded a mode that is not the static mode of its position"
+            else if !probesReached then "the probes that recorded are not the ones the evaluation reaches (a position was not evaluated, or evaluated twice)"
             else if !fresh.noSpecObject then "a container of the result (or an argument handed to a callable) is the spec's own object, not a rebuilt one"
             else if !fresh.rerunSame then "the same spec evaluated again after the first result was mutated gave a different result: evaluations share mutable state"
             else if !lazyOK then "a lazily evaluated stream (Iter) built under a mode wrapper was not evaluated in the mode of the place where it is written"
